@@ -51,6 +51,9 @@ func c17Values(r *fw.Rng, n int) []c17Value {
 	for _, d := range []int64{0, 1, -1, 1234, -1234, 5, -5, 999, 1000, -1000, math.MaxInt64, math.MinInt64 + 1, 123456789012} {
 		out = append(out, c17Value{"dec", refmodel.Val(fmt.Sprintf("d:%d:3", d))})
 	}
+	for _, d := range []string{"d:15:1", "d:-35:1", "d:7:0", "d:123456:5", "d:1:18"} {
+		out = append(out, c17Value{"dec", refmodel.Val(d)})
+	}
 	for _, f := range []float32{0, 1, -1, 1.5, -2.25, 3.1415927, math.MaxFloat32, -math.MaxFloat32, math.SmallestNonzeroFloat32, 1e-10, 123456.79, 16777217} {
 		out = append(out, c17Value{"flt", refmodel.Val(fmt.Sprintf("f:%08x", math.Float32bits(f)))})
 	}
@@ -71,6 +74,10 @@ func c17Values(r *fw.Rng, n int) []c17Value {
 	ll("ll-bytes", "y:00", "y:ff10")
 	ll("ll-bytes", "y:", "y:01")
 	ll("ll-dec", "d:125:2", "d:-5:2", "d:100:2")
+	// a client is free to send a precision other than the model's fraction-digits: 1.5 as (15, 1)
+	ll("ll-dec", "d:15:1", "d:25:1", "d:-35:1")
+	ll("ll-dec", "d:1500:3", "d:2:3")
+	ll("ll-dec", "d:7:0")
 	ll("ll-flt", "f:3fc00000", "f:c0100000")
 	for i := 0; i < n; i++ {
 		switch r.Intn(6) {
